@@ -2,4 +2,4 @@ From Coq Require Import Extraction ExtrOcamlBasic.
 From OV Require Import Common.Base C11.Model.
 Extraction Language OCaml.
 Extraction "C11_model.ml" mkflags repaired defective head new_ring push oldest_seq newest_seq range
-  mk_pool mk_pd mkreg sys_init sent_of next_of sys_step sys_run s2c expected_store expected_leases leases_of index_to_prefix.
+  mk_pool mk_pd mkreg sys_init sent_of next_of sys_step sys_run s2c expected_store expected_leases leases_of index_to_prefix ss_run ring_list.
